@@ -121,6 +121,17 @@ func (c *Config) UnmarshalBinary(data []byte) error {
 			if err := pedersen.ValidateParameters(paillierSecret.Modulus().Modulus, p.S, p.T); err != nil {
 				return fmt.Errorf("config: party %s: %w", p.ID, err)
 			}
+			// the stored public entry must belong to the stored secrets, otherwise a damaged secret
+			// silently becomes a share of a different key
+			if !p.ECDSA.Equal(cm.ECDSA.ActOnBase()) || !p.ElGamal.Equal(cm.ElGamal.ActOnBase()) {
+				return fmt.Errorf("config: party %s: secret keys do not match the stored public keys", p.ID)
+			}
+			if err := paillier.ValidateN(p.N); err != nil {
+				return fmt.Errorf("config: party %s: %w", p.ID, err)
+			}
+			if p.N.Big().Cmp(paillierSecret.Modulus().Big()) != 0 {
+				return fmt.Errorf("config: party %s: primes do not match the stored modulus", p.ID)
+			}
 			ps[p.ID] = &Public{
 				ECDSA:    cm.ECDSA.ActOnBase(),
 				ElGamal:  cm.ElGamal.ActOnBase(),
